@@ -9,7 +9,7 @@
 (* step by Run.  Every step emits the events the real code would emit;     *)
 (* the contract monitor (Contract.tla) is folded over them.                *)
 (***************************************************************************)
-EXTENDS Contract, Json
+EXTENDS Contract, PolicyDefs, Json
 
 CONSTANTS N, NS, NP, NW,            \* objects, traced / untraced / weak slots per object
           FIN, WEAK, DBG,           \* feature switches of the build that is modelled
@@ -125,15 +125,6 @@ CallEvPol(s, c) == CallEv(s, c) @@ [by |-> s.bytes, bf |-> IF s.buf THEN s.pcSiz
 
 \* ------------------------------------------------------------------ automatic collection policy (config.rs)
 ShouldTrigger(s) == AUTOF /\ ~s.col /\ s.buf /\ s.cfg.auto /\ (s.bytes > s.cfg.thr \/ (s.cfg.bt # 0 /\ s.pcSize > s.cfg.bt))
-RECURSIVE ThrUp(_, _)
-ThrUp(thr, bytes) == LET t == 2 * thr IN IF bytes < t THEN t ELSE ThrUp(t, bytes)
-RECURSIVE ThrDown(_, _, _, _)
-ThrDown(thr, bytes, pn, pd) ==
-  IF bytes * pd <= thr * pn THEN
-    LET nt == thr \div 2 IN
-    IF bytes >= nt THEN thr ELSE IF nt <= 100 THEN 100 ELSE ThrDown(nt, bytes, pn, pd)
-  ELSE thr
-AdjustThr(thr, bytes, pn, pd) == IF bytes >= thr THEN ThrUp(thr, bytes) ELSE IF pn = 0 THEN thr ELSE ThrDown(thr, bytes, pn, pd)
 Adjust(s) == IF AUTOF THEN [s EXCEPT !.cfg.thr = AdjustThr(@, s.bytes, s.cfg.pn, s.cfg.pd)] ELSE s
 
 \* ------------------------------------------------------------------ Cc::drop (cc.rs:249), one pointer to o
